@@ -116,7 +116,13 @@ def build_system(case):
         ref = ttns
     ttno = util.TTNO.from_hamiltonian(copy.deepcopy(ham), ref)
     H = util.dense_ham(ham, ids, dims)
-    return {"ttns": ttns, "ham": ham, "ttno": ttno, "ids": ids, "dims": dims, "H": H, "ref": ref, "phys": phys}
+    # time step: a power of two (factor * dt exact) with ||H|| dt in (1/2, 1] * dtscale, so that the expm kernels
+    # work at their nominal accuracy (the conservation/reversal tolerances are about the schedule, not about expm)
+    import math
+    nrm = float(np.linalg.norm(H, 2))
+    dt = 2.0 ** math.floor(math.log2(1.0 / nrm)) if nrm > 0 else DT
+    dt = min(max(dt, 2.0 ** -24), 0.25) * case.get("dtscale", 1)
+    return {"dt": dt, "ttns": ttns, "ham": ham, "ttno": ttno, "ids": ids, "dims": dims, "H": H, "ref": ref, "phys": phys}
 
 
 def rtree_json(ttn):
@@ -355,7 +361,8 @@ class Recorder:
         return out
 
 
-def make_algo(kind, sysd, mode=None, svd=None, dt=DT, nsteps=1):
+def make_algo(kind, sysd, mode=None, svd=None, dt=None, nsteps=1):
+    dt = sysd.get("dt", DT) if dt is None else dt
     return util.make_evolution(kind, sysd["ttns"], sysd["ham"], sysd["ttno"], dt, dt * nsteps, [], mode=mode, svd=svd)
 
 
@@ -367,6 +374,7 @@ def record_run(kind, sysd, nsteps, check_heff=False, mode=None, svd=None, after_
     with rec:
         t0 = rtree_json(sysd["ttns"])
         ob["t0"] = t0
+        ob["dt"] = sysd.get("dt", DT)
         algo = make_algo(kind, sysd, mode=mode, svd=svd, nsteps=nsteps)
         rec.algo = algo
         ob["init_log"] = [list(e) for e in rec.take()]
